@@ -121,8 +121,11 @@ class Ctx:
             if t_ok and f_ok:
                 take = True
                 self.decisions.append((True, False))
-                if self.explorer is not None:
-                    self.explorer.enqueue([*self.decisions[:-1], (False, True)])
+                if self.explorer is None:
+                    # no exploration is running: silently following one branch would leave the other
+                    # one unchecked, so the unit is undecided instead
+                    raise Unsupported(f"symbolic branch outside path exploration: {cond}")
+                self.explorer.enqueue([*self.decisions[:-1], (False, True)])
             elif t_ok:
                 take = True
                 self.decisions.append((True, True))
